@@ -428,6 +428,7 @@ theorem step_good {s : Server} (hr : Gen.Tcp.recvLoopCatchesOSError = true)
   | conn p => simp only [Server.step]; split <;> exact ⟨h.listening, h.ix, h.cx, h.plain⟩
   | afault code => cases hq
   | svc => exact (service_spec hr hs h hc).2.1.1
+  | nop => exact h
   | svce =>
     have hsp := service_spec hr hs h hc
     simp only [Server.step]
@@ -513,6 +514,7 @@ theorem step_calm {s : Server} (hr : Gen.Tcp.recvLoopCatchesOSError = true)
     · exact hc
   | afault code => cases hq
   | svc => exact (service_spec hr hs h hc).2.1.2
+  | nop => exact hc
   | svce =>
     have hsp := service_spec hr hs h hc
     simp only [Server.step]
